@@ -393,7 +393,7 @@ fn plans(prop: &str, tier: &str) -> Vec<Plan> {
                 };
                 for init in inits(nkeys, 2) {
                     for policy in both {
-                        cfgs.push(Cfg { stages: vec![*k], batched: true, twin: true, init: init.clone(), nkeys, policy, ..base("C13") });
+                        cfgs.push(Cfg { stages: vec![*k], batched: true, twin: true, init: init.clone(), nkeys, policy, drop_vec: true, ..base("C13") });
                     }
                 }
             }
@@ -472,6 +472,17 @@ fn plans(prop: &str, tier: &str) -> Vec<Plan> {
                 }
             }
             out.push(Plan { name: "c14-chains-reduced", cfgs, depth: if q { 3 } else { 4 } });
+            // long runs of updates between two polls: an adapter that gives up
+            // after n input items must not answer Pending without a wake-up
+            let mut cfgs = Vec::new();
+            for kind in [StageKind::Filter, StageKind::FilterMap, StageKind::Sort, StageKind::Head(Lim::Static(1)), StageKind::Tail(Lim::Static(1)), StageKind::Skip(Lim::Static(2)), StageKind::Head(Lim::Dyn(LimSrc::Obs))] {
+                for batched in fl {
+                    for init in [vec![0u8, 1], vec![1u8, 0, 1]] {
+                        cfgs.push(Cfg { stages: vec![kind], batched, init, nkeys: 2, capacity: 128, alphabet: Alphabet::Reduced, bursts: vec![33, 70], policy: Policy::Manual, drop_vec: true, max_limit: 3, ..base("C14") });
+                    }
+                }
+            }
+            out.push(Plan { name: "c14-bursts", cfgs, depth: if q { 3 } else { 4 } });
         }
         "C15" => {
             let mut kinds = Vec::new();
